@@ -392,6 +392,21 @@ def rule_legacy(run, F, cfg):
            "on the loops and (procedural bins) on the element having a CSS form; value-dependent skips lose "
            f"entries such as the blanket scriptlet exception `#@#+js()`, stored as the empty string ({odd[:2]})",
            site=odd[0][3] if odd else leg.loc(0), config=cfg)
+    # load side: every entry of the legacy map is put back into a bin: an insert is control-dependent only on
+    # the two loops and on the variant of the entry (never on its content)
+    odd_r = []
+    n_ins = 0
+    for b, t in back.calls(r"HostnameFilterBin::(insert|insert_procedural_action_filter)$"):
+        n_ins += 1
+        for ce, v in dominating_conditions(back, b, render=back.vexpr_operand).items():
+            if ce.startswith("discr(") and ("Iterator>::next(" in ce or re.match(r"^discr\(\$\w+\)$", ce)):
+                continue
+            odd_r.append((ce[:100], v, back.loc(b)))
+    run.ob("C08.3.legacy-bijection", "restores-unconditional", n_ins >= 6 and not odd_r,
+           "every entry read from the wire is inserted into its bin: the inserts of the legacy -> HostnameRuleDb conversion "
+           "depend only on the loops and the entry's variant. A content-dependent skip (e.g. of empty strings) drops the "
+           f"blanket scriptlet exception `#@#+js()`, which is stored as the empty string ({odd_r[:2]})",
+           site=odd_r[0][2] if odd_r else back.loc(0), config=cfg)
     # procedural maps restored from the dedicated trailing fields
     de = find_fn(F, r"impl std::convert::From<data_format::v0::DeserializeFormat> for \(blocker::Blocker, cosmetic_filter_cache::CosmeticFilterCache\)>::from$")
     wrote = {}
